@@ -110,7 +110,7 @@ func runFrom(c Cfg, hist []Pt, file string, from int, first, snapshots bool, lin
 	} else {
 		r.log = append(r.log, ev("Restart", rt.M{"state": w.state()}))
 	}
-	w.registerNamed()
+	w.registerNamed(first)
 	w.startTask()
 	ntx := 0
 	var snap func(phase string, k int, pre rt.M)
@@ -223,7 +223,7 @@ func doTaskRestart(r *run1, at int, lineage int64) []rt.M {
 	if err != nil {
 		rt.Fatalf("c08: open: %v", err)
 	}
-	w.registerNamed()
+	w.registerNamed(true)
 	w.startTask()
 	tr := []rt.M{ev("Start", rt.M{"state": w.state(), "told": w.told()})}
 	runPoints(w, r.hist[:at+1], 0, &tr, nil)
